@@ -447,3 +447,11 @@ impl<T> SeqIter<T> {
     { unimplemented!() }
 }
 }
+verus! {
+// ---------------------------------------------------------------- `String::from` / `.into()` (std meaning: the same text)
+// vstd routes these through a generic `FromSpec` whose result is unconstrained for std impls, so an equivalent
+// rewrite of `x.to_string()` into `String::from(x)` / `x.into()` would otherwise leave the value arbitrary.
+pub assume_specification<'a>[ <String as From<&'a str>>::from ](s: &str) -> (r: String) ensures r@ == s@;
+pub assume_specification<'a>[ <String as From<&'a String>>::from ](s: &String) -> (r: String) ensures r@ == s@;
+pub assume_specification<T>[ <T as From<T>>::from ](t: T) -> (r: T) ensures r == t;
+}
